@@ -46,13 +46,14 @@ CrashClauses(s, e, t, f) ==
 (* that is not there.  s is the crash state, t the state after the command was given again.                        *)
 RetryClauses(s, e, t) ==
     LET S == s.st  T == t.st
-        sound == S.repo /\ T.repo /\ HeadOk(S) /\ Len(S.refsodd) = 0 /\ AllTipsComplete(S) /\ ConnectedReach(S)
+        (* the crash state is sound, or there is no repository yet (init was interrupted) *)
+        sound == T.repo /\ (~S.repo \/ (HeadOk(S) /\ Len(S.refsodd) = 0 /\ AllTipsComplete(S) /\ ConnectedReach(S)))
     IN
     <<
-    Cl("C15_RetryNoCrash", {"C15"}, S.repo, S.repo => e.res \in {"ok", "refused"}),
+    Cl("C15_RetryNoCrash", {"C15"}, TRUE, e.res \in {"ok", "refused"}),
     Cl("C15_RetryUsable", {"C15"}, sound,
         sound => /\ HeadOk(T) /\ Len(T.refsodd) = 0 /\ AllTipsComplete(T) /\ ConnectedReach(T)
-                 /\ \A c \in ROCmds : Res(s, c) \notin {"crash", "hang"} => Res(t, c) \notin {"crash", "hang"})
+                 /\ \A c \in ROCmds : (S.repo /\ Res(s, c) \in {"crash", "hang"}) \/ Res(t, c) \notin {"crash", "hang"})
     >>
 
 (* a command that reported success under a fault must have produced the fault-free result; *)
@@ -65,6 +66,10 @@ SameResult(T, F) ==
     /\ Branches(T) = Branches(F)
     /\ \A b \in Branches(T) : T.refs[b] = F.refs[b] \/ SameCommit(T, T.refs[b], F, F.refs[b])
     /\ Len(T.hlog) = Len(F.hlog)
+    /\ \A i \in 1..Len(F.hlog) :                  \* the journal records the same moves (commit ids embed the time of the run)
+          i <= Len(T.hlog) =>
+              /\ T.hlog[i].kind = F.hlog[i].kind
+              /\ (T.hlog[i].to = F.hlog[i].to \/ SameCommit(T, T.hlog[i].to, F, F.hlog[i].to))
     /\ \A id \in DOMAIN F.objs : Obj(F, id).k \in {"blob", "tree"} => id \in DOMAIN T.objs
 
 FaultClauses(s, e, t, f) ==
